@@ -471,6 +471,10 @@ def identical(interp, a, b):
         return equal_err(interp, a, b)
     if isinstance(a, SComplex) or isinstance(b, SComplex):
         return a is b
+    if is_sym(a) and is_sym(b) and type(a) is not type(b) and not {type(a), type(b)} <= {SStr, SDec}:
+        return False          # objects of different python types are never identical
+    if isinstance(a, SReal) and isinstance(b, SReal):
+        return False          # two distinct float objects (floats are not interned)
     if is_sym(a) or is_sym(b):
         if a is None or b is None:
             return False
@@ -1795,6 +1799,20 @@ def _register_numpy():
         interp.ctx.ghost.setdefault('assumptions', set()).add('np.power(float, float): nan/inf exactly where float ** raises or is complex')
         return SReal(r, tm.mk_and(fin_term(x), fin_term(y), tm.mk_not(bad)))
     BUILTINS[np.power] = _np_power
+
+    def _np_mod(interp, x, y):
+        if not (is_sym(x) or is_sym(y)):
+            return np.mod(x, y)
+        if interp.float_mode != 'real':
+            raise Unsupported('np.mod outside real mode')
+        if isinstance(x, (SInt, int)) and isinstance(y, (SInt, int)) and not isinstance(x, bool) and not isinstance(y, bool):
+            return binop(interp, 'Mod', x, y)
+        a, b = real_term(x), real_term(y)
+        if interp.ctx.branch(tm.mk_eq(b, tm.const(Fraction(0)))):
+            raise Unsupported('np.mod by zero (nan)')
+        q = tm.mk_to_real(tm.mk_floor(tm.mk_rdiv(a, b)))
+        return SReal(tm.mk_sub(a, tm.mk_mul(b, q)))
+    BUILTINS[np.mod] = _np_mod
 
 
 _register_numpy()
